@@ -38,6 +38,7 @@ var entities = []entityDef{
 	{"User", false, []keyDef{{"FindUserByID", [][]string{{"id"}}}}},
 	{"Item", false, []keyDef{{"FindItemBySku", [][]string{{"sku"}}}, {"FindItemByUpc", [][]string{{"upc"}}}}},
 	{"Pair", false, []keyDef{{"FindPairByAAndB", [][]string{{"a"}, {"b"}}}}},
+	{"Crate", false, []keyDef{{"FindCrateBySkuAndRegion", [][]string{{"sku"}, {"region"}}}, {"FindCrateByUpc", [][]string{{"upc"}}}}},
 	{"Nested", false, []keyDef{{"FindNestedByOwnerIDAndCode", [][]string{{"owner", "id"}, {"code"}}}}},
 	{"Planet", false, []keyDef{{"FindPlanetByName", [][]string{{"name"}}}}},
 	{"MUser", true, []keyDef{{"FindManyMUserByIDs", [][]string{{"id"}}}}},
@@ -67,7 +68,7 @@ type Case struct {
 	DelaysUS map[string]int    `json:"delays_us,omitempty"`
 }
 
-const query = `query($r: [_Any!]!) { _entities(representations: $r) { __typename ... on User { marker } ... on Item { marker } ... on Pair { marker } ... on Nested { marker } ... on Planet { marker diameter } ... on MUser { marker } ... on MItem { marker } } }`
+const query = `query($r: [_Any!]!) { _entities(representations: $r) { __typename ... on User { marker } ... on Item { marker } ... on Pair { marker } ... on Crate { marker } ... on Nested { marker } ... on Planet { marker diameter } ... on MUser { marker } ... on MItem { marker } } }`
 
 // state the entity resolvers consult
 type state struct {
@@ -264,7 +265,7 @@ func keyValue(ent string, path []string, v any) (any, bool) {
 			return string(x), true
 		}
 		return nil, false
-	case last == "sku" || last == "upc": // String (nullable)
+	case last == "sku" || last == "upc" || last == "region": // String (nullable)
 		switch x := v.(type) {
 		case string:
 			return x, true
@@ -549,7 +550,7 @@ func check(c Case) *vfrun.Failure {
 func genRep(t *rapid.T) string {
 	ids := []string{"u1", "u2", "u3"}
 	str := func(label string) string { return rapid.SampledFrom(ids).Draw(t, label) }
-	switch rapid.IntRange(0, 12).Draw(t, "repkind") {
+	switch rapid.IntRange(0, 15).Draw(t, "repkind") {
 	case 0:
 		return fmt.Sprintf(`{"__typename":"User","id":%q}`, str("id"))
 	case 1:
@@ -577,8 +578,47 @@ func genRep(t *rapid.T) string {
 			`{"__typename":"MUser"}`, `{"__typename":"MUser","id":[1]}`, `{}`}).Draw(t, "hostile")
 	case 10:
 		return fmt.Sprintf(`{"__typename":"Item","sku":%q,"upc":%q}`, str("sku2"), str("upc2"))
-	default:
+	case 11:
 		return fmt.Sprintf(`{"__typename":"User","id":%d}`, rapid.IntRange(1, 3).Draw(t, "numid"))
+	default:
+		// any non-batch entity with every field of every key independently present, null or absent:
+		// partial composite keys, later keys that are null, several complete keys at once
+		var single []entityDef
+		for _, e := range entities {
+			if !e.multi && e.name != "Planet" && e.name != "Nested" {
+				single = append(single, e)
+			}
+		}
+		e := single[rapid.IntRange(0, len(single)-1).Draw(t, "anyentity")]
+		parts := []string{fmt.Sprintf(`"__typename":%q`, e.name)}
+		seen := map[string]bool{}
+		for _, k := range e.keys {
+			for _, f := range k.fields {
+				name := f[0]
+				if seen[name] {
+					continue
+				}
+				seen[name] = true
+				st := rapid.IntRange(0, 4).Draw(t, "fieldstate")
+				if st == 1 && (e.name == "Pair" || e.name == "User") {
+					// an explicit null for a key field of non-null type is not a representation a
+					// gateway sends; what it resolves to is not defined
+					st = 0
+				}
+				switch st {
+				case 0:
+				case 1:
+					parts = append(parts, fmt.Sprintf(`%q:null`, name))
+				default:
+					if e.name == "Pair" && name == "b" {
+						parts = append(parts, fmt.Sprintf(`%q:%d`, name, rapid.IntRange(0, 3).Draw(t, "anyb")))
+					} else {
+						parts = append(parts, fmt.Sprintf(`%q:%q`, name, str("anyval")))
+					}
+				}
+			}
+		}
+		return "{" + strings.Join(parts, ",") + "}"
 	}
 }
 
